@@ -160,3 +160,118 @@ def gen_space_case(rng, n_points=4):
     libs = ["OT"] if any(c["libs"] == ["OT"] for v in variables if v["role"] == "rand" for c in v["laws"]) else ["SP", "OT"]
     return {"kind": "space", "variables": variables, "libs": libs, "n_points": n_points,
             "point_seed": int(rng.integers(1, 2**31 - 1))}
+
+
+# --------------------------------------------------------------------------- edit histories of a parameter space
+def apply_edits_model(variables, edits):
+    """The harness's own model: ordered variable list -> law, after a history of legal edits.
+
+    rename keeps the position; remove deletes; add_* appends; filter / extract keep the original order;
+    add_variables_from builds a new space in the order of the given names; rebuild changes nothing.
+    """
+    model = [dict(v) for v in variables]
+    for e in edits:
+        op = e["op"]
+        if op == "rename":
+            for v in model:
+                if v["name"] == e["name"]:
+                    v["name"] = e["new"]
+        elif op == "remove":
+            model = [v for v in model if v["name"] != e["name"]]
+        elif op in ("add_random", "add_det"):
+            model.append(dict(e["var"]))
+        elif op == "filter":
+            model = [v for v in model if v["name"] in e["keep"]]
+        elif op == "extract_uncertain":
+            model = [v for v in model if v["role"] == "rand"]
+        elif op == "add_variables_from":
+            by = {v["name"]: v for v in model}
+            model = [by[n] for n in e["names"]]
+        elif op == "rebuild":
+            pass
+        else:
+            raise ValueError(op)
+    return model
+
+
+def _gen_random_variable(rng, name, plain_only):
+    size = int(rng.choice([1, 1, 2, 3]))
+    kind = str(rng.choice(PLAIN_FAMILIES))
+    fam = base_family(kind)
+    shared = bool(rng.random() < 0.5) or size == 1
+    if not plain_only and rng.random() < 0.4:
+        return {"name": name, "role": "rand", "size": size, "shared": True,
+                "laws": [gen_law_case(rng, kind, str(rng.choice(["trunc2", "trunc_lo", "trunc_hi", "affine"])))]}
+    comps = [gen_law_case(rng, kind, "generic" if (fam in GENERIC_TWINS and rng.random() < 0.25) else "plain")
+             for _ in range(1 if shared else size)]
+    for c in comps:
+        c["via"] = comps[0]["via"]
+        for k in ("set_log", "use_weibull_min"):
+            if k in comps[0]["params"]:
+                c["params"][k] = comps[0]["params"][k]
+    return {"name": name, "role": "rand", "size": size, "shared": shared, "laws": comps}
+
+
+def gen_edits(rng, variables, libs, n_edits=None):
+    """A short random history of legal edits; at least one random variable always remains."""
+    n_edits = int(rng.integers(1, 6)) if n_edits is None else n_edits
+    edits = []
+    fresh = [0]
+
+    def new_name(prefix):
+        fresh[0] += 1
+        return f"{prefix}{fresh[0]}"
+
+    plain_only = list(libs) == ["SP", "OT"]
+    for _ in range(n_edits):
+        model = apply_edits_model(variables, edits)
+        names = [v["name"] for v in model]
+        rnd = [v["name"] for v in model if v["role"] == "rand"]
+        det = [v["name"] for v in model if v["role"] == "det"]
+        r = rng.random()
+        if r < 0.35:
+            # rename: bias towards random variables that are not the last random one
+            if len(rnd) > 1 and rng.random() < 0.6:
+                name = str(rng.choice(rnd[:-1]))
+            else:
+                name = str(rng.choice(names))
+            edits.append({"op": "rename", "name": name, "new": new_name("q")})
+        elif r < 0.47 and len(names) > 1:
+            cand = [n for n in names if not (n in rnd and len(rnd) == 1)]
+            edits.append({"op": "remove", "name": str(rng.choice(cand))})
+        elif r < 0.62 and len(names) < 7:
+            edits.append({"op": "add_random", "var": _gen_random_variable(rng, new_name("a"), plain_only)})
+        elif r < 0.70 and len(names) < 7:
+            size = int(rng.choice([1, 2]))
+            lb = np.round(rng.uniform(-10, 10, size), 2)
+            ub = lb + np.round(np.exp(rng.uniform(-2, 3, size)), 2) + 0.01
+            edits.append({"op": "add_det", "var": {"name": new_name("c"), "role": "det", "type": "float", "size": size,
+                                                   "lb": lb.tolist(), "ub": ub.tolist()}})
+        elif r < 0.80 and len(names) > 1:
+            k = int(rng.integers(1, len(names) + 1))
+            keep = [str(n) for n in rng.permutation(names)[:k]]
+            if not any(n in rnd for n in keep):
+                keep.append(str(rng.choice(rnd)))
+            edits.append({"op": "filter", "keep": keep, "copy": bool(rng.random() < 0.5)})
+        elif r < 0.86 and det:
+            edits.append({"op": "extract_uncertain"})
+        elif r < 0.93:
+            edits.append({"op": "rebuild"})
+        else:
+            k = int(rng.integers(1, len(names) + 1))
+            sel = [str(n) for n in rng.permutation(names)[:k]]
+            if not any(n in rnd for n in sel):
+                sel.append(str(rng.choice(rnd)))
+            edits.append({"op": "add_variables_from", "names": sel})
+    return edits
+
+
+def gen_edited_space_case(rng, n_points=3):
+    case = gen_space_case(rng, n_points)
+    # make sure most histories have something to permute: at least two random variables with prob. 0.7
+    if sum(v["role"] == "rand" for v in case["variables"]) < 2 and rng.random() < 0.7:
+        plain_only = case["libs"] == ["SP", "OT"]
+        case["variables"].append(_gen_random_variable(rng, "rx", plain_only))
+    case["edits"] = gen_edits(rng, case["variables"], case["libs"])
+    case["warm"] = bool(rng.random() < 0.5)
+    return case
